@@ -46,7 +46,7 @@ def run(ctx):
             st = [tk for tk in T.stream_tokens(main) if tk.kind == "interp"]
             ctx.ob("C08.H.declarations-source", f.key, "#declarations", bool(st) and "ExtractAttribute::local_declarations(self)" in (st[0].expr or ""), "first interpolation comes from %s" % (st[0].expr if st else None))
             # selection match
-            m = re.search(r"for __attr in ⟨proc_macro2::TokenStream⟩ \{ match (.*?) \. as_str \( \) \{ \| ⟨quote::__private::RepInterp<str>⟩ => \{", txt)
+            m = re.search(r"for __attr in (?:& )?⟨proc_macro2::TokenStream⟩(?: \. attrs)? \{ match (.*?) \. as_str \( \) \{ \| ⟨quote::__private::RepInterp<str>⟩ => \{", txt)
             ctx.ob("C08.H.selection-match", f.key, "match <attr path string> { #(#attr_names)|* => {…} #forward_unhandled }", bool(m), txt[:260])
             scrut = m.group(1) if m else ""
             ctx.ob("C08.H.scrutinee-is-attr-path", f.key, "scrutinee", "__attr . path ( )" in scrut, "scrutinee: %s" % scrut)
